@@ -16,11 +16,30 @@ CACHE = os.path.join(vlib.BUILD, "c02cache")
 SYMEX_FUEL = 6000
 
 # (name, go file, tla file, pcal source for the *.gotests pairs, Bind module)
+def gotest(name, consts=()):
+    d = "pgo/test/files/general/%s.tla" % name
+    return {"name": name, "go": "%s.gotests/%s.go" % (d, name), "tla": d, "pcal": d + ".expectpcal", "constants": list(consts)}
+
+
 SYSTEMS = [
     {"name": "locksvc", "go": "systems/locksvc/locksvc.go", "tla": "systems/locksvc/locksvc.tla",
      "constants": [("NumClients", "VNum 3")]},
     {"name": "dqueue", "go": "systems/dqueue/dqueue.go", "tla": "systems/dqueue/dqueue.tla",
      "constants": [("BUFFER_SIZE", "VNum 2"), ("NUM_CONSUMERS", "VNum 2"), ("PRODUCER", "VNum 0")]},
+    {"name": "loadbalancer", "go": "systems/loadbalancer/load_balancer.go", "tla": "systems/loadbalancer/load_balancer.tla",
+     "constants": [("BUFFER_SIZE", "VNum 2"), ("NUM_CLIENTS", "VNum 2"), ("NUM_SERVERS", "VNum 2"), ("LoadBalancerId", "VNum 0"),
+                   ("GET_PAGE", "VNum 200"), ("WEB_PAGE", "VNum 42")]},
+    {"name": "proxy", "go": "systems/proxy/proxy.go", "tla": "systems/proxy/proxy.tla",
+     "constants": [("NUM_SERVERS", "VNum 2"), ("NUM_CLIENTS", "VNum 1"), ("EXPLORE_FAIL", "VBool true"), ("CLIENT_RUN", "VBool true")]},
+    {"name": "shcounter", "go": "systems/shcounter/shcounter.go", "tla": "systems/shcounter/shcounter.tla",
+     "constants": [("NUM_NODES", "VNum 3")]},
+    {"name": "gcounter", "go": "systems/gcounter/gcounter.go", "tla": "systems/gcounter/gcounter.tla",
+     "constants": [("NUM_NODES", "VNum 2"), ("BENCH_NUM_ROUNDS", "VNum 1")],
+     "env_processes": ["UpdateGCntr"],          # plain PlusCal process (CRDT merge): no generated Go
+     "unused_archetypes": ["ANodeBench"]},      # archetype not instantiated by the spec: no TLA+ action to compare with
+    gotest("hello"),
+    gotest("IndexingLocals"),
+    gotest("NonDetExploration"),
 ]
 
 
@@ -179,10 +198,10 @@ def gen_system(sysd):
             lab["hash"] = sha(l["hash"], a["hash"])
             g, t = "%s_gtree_%s_%s" % (name, cid(proc), cid(tl)), "%s_ttree_%s_%s" % (name, cid(proc), cid(tl))
             lab["g"], lab["t"] = g, t
-            trees.append("Definition %s : dtree := go_body_tree %s_tla_locals %s %s_inst_%s %d %s.\n"
-                         % (g, name, selfes[proc], name, cid(proc), SYMEX_FUEL, l["def"]))
-            trees.append('Definition %s : dtree := tla_action_tree %s_tla_locals %s %d "%s" %s %s.\n'
-                         % (t, name, selfes[proc], SYMEX_FUEL, tl, '(Some "%s")' % a["self"] if a["self"] else "None", a["def"]))
+            trees.append("Definition %s : dtree := go_body_tree %s_tla_locals %s %s_scratch %s_inst_%s %d %s.\n"
+                         % (g, name, selfes[proc], name, name, cid(proc), SYMEX_FUEL, l["def"]))
+            trees.append('Definition %s : dtree := tla_action_tree %s_tla_locals %s %s_scratch %d "%s" %s %s.\n'
+                         % (t, name, selfes[proc], name, SYMEX_FUEL, tl, '(Some "%s")' % a["self"] if a["self"] else "None", a["def"]))
             labels.append(lab)
     for (proc, arch, ren) in insts:
         for an in procs.get(proc, []):
@@ -190,7 +209,13 @@ def gen_system(sysd):
                 labels.append({"id": "%s.%s.%s" % (name, proc, an), "proc": proc, "tla_action": an, "go_label": None,
                                "thm": "%s_%s_%s_equiv" % (name, cid(proc), cid(an)), "hash": None,
                                "error": "TLA+ action %s of process %s has no Go critical section in archetype %s" % (an, proc, arch)})
-    covered = {p for (p, _, _) in insts}
+    covered = {p for (p, _, _) in insts} | set(sysd.get("env_processes", []))
+    archs_bound = {a for (_, a, _) in insts} | set(sysd.get("unused_archetypes", []))
+    for a in gj["archetypes"]:
+        if a["name"] not in archs_bound:
+            info["errors"].append("Go archetype %s is bound to no process in Bind_%s.v" % (a["name"], name))
+    info["unused_archetype_labels"] = [l["name"] for l in gj["labels"] if l["kind"] == "body" and
+                                       l["name"].split(".")[0] in sysd.get("unused_archetypes", [])]
     for p in procs:
         if p not in covered:
             info["errors"].append("process %s of the TLA+ translation is bound to no archetype in Bind_%s.v" % (p, name))
@@ -212,12 +237,23 @@ def gen_system(sysd):
         rows = ['("%s", (%s, %s))' % (l["tla_action"], l["g"], l["t"]) for l in ok_labels if l["proc"] == proc]
         ptabs.append('("%s", (match lookup "%s" %s_tla_procs with Some (s, _) => s | None => None end, [%s]))'
                      % (proc, proc, name, "; ".join(rows)))
+    for p in sysd.get("env_processes", []):
+        rows = []
+        for an in procs.get(p, []):
+            a = act[an]
+            t = "%s_ttree_%s_%s" % (name, cid(p), cid(an))
+            trees_env = 'Definition %s : dtree := tla_action_tree %s_tla_locals %s %s_scratch %d "%s" %s %s.\n' % (
+                t, name, selfes[p], name, SYMEX_FUEL, an, '(Some "%s")' % a["self"] if a["self"] else "None", a["def"])
+            wk.append(trees_env)
+            rows.append('("%s", (%s, %s))' % (an, t, t))
+        ptabs.append('("%s", (match lookup "%s" %s_tla_procs with Some (s, _) => s | None => None end, [%s]))'
+                     % (p, p, name, "; ".join(rows)))
     consts = "; ".join('("%s", %s)' % (c, v) for (c, v) in sysd.get("constants", []))
     wk.append("Definition %s_W : wsys := Eval vm_compute in mkW %s_Dgo (canon_defs %s_tla_defs) [%s] %s_tla_init\n  [%s].\n"
               % (name, name, name, consts, name, ";\n   ".join(ptabs)))
     wk.append('Definition %s_walk_report (n : nat) (rnd : list N) : string :=\n'
               '  let \'(mm, tr) := one_walk n %s_W (map N.to_nat rnd) in\n'
-              '  ((match mm with Some s => s | None => "" end) ++ "#@#TRACE " ++ sep "," tr ++ " #@#ENDTRACE")%%string.\n' % (name, name))
+              '  (cat (map snd mm) ++ "#@#TRACE " ++ sep "," tr ++ " #@#ENDTRACE")%%string.\n' % (name, name))
     ch |= write_if_changed(os.path.join(GEN, name + "_walkdefs.v"), "".join(wk))
     info["changed"] = ch
     return info
@@ -360,8 +396,8 @@ def run_walks(info, rnds, steps, log):
             cover[l.strip()] = cover.get(l.strip(), 0) + 1
         if "#@#WALKERROR" in rep:
             return mism, cover, rep.split("#@#WALKERROR", 1)[1].split("#@#END")[0].strip()
-        if "#@#MISMATCH" in rep:
-            mm = rep.split("#@#MISMATCH", 1)[1].split("#@#END")[0]
+        for mm in rep.split("#@#MISMATCH")[1:]:
+            mm = mm.split("#@#END")[0]
             d = {"rnd": r, "steps": steps, "system": name}
             for part in mm.split("#@#"):
                 if "=" in part:
